@@ -78,8 +78,8 @@ FeatTable == <<
   F("i.off.x",             "i", {}, "none", {}),
   F("i.off.y",             "i", {}, "none", {}),
   F("i.off.xy",            "i", {}, "none", {}),
-  F("tc.data",             "t", {"t"}, "all", {"tblcfg"}),
-  F("tc.colwidths",        "t", {"tblGrid", "tcW"}, "all", {"tblcfg"}),
+  F("tc.data",             "t", {"t"}, "all", {"tbldata"}),
+  F("tc.colwidths",        "t", {"tblGrid", "tcW"}, "all", {"tbldata"}),
   F("tc.emph",             "t", {"b", "i"}, "all", {"c2", "r2", "tblcfg"}),
   F("p.align.left",        "p", {"jc"}, "all", {}),
   F("p.align.center",      "p", {"jc"}, "all", {}),
@@ -179,6 +179,8 @@ FeatTable == <<
   F("t.celllist.roman",    "t", {"p", "r", "t"}, "all", {}),
   F("t.cellimage",         "t", {"blip", "cNvPicPr", "cNvPr", "docPr", "drawing", "extent", "inline", "p", "prstGeom", "r", "stretch", "xfrm"}, "all", {}),
   F("t.cellimage.sized",   "t", {"blip", "cNvPicPr", "cNvPr", "docPr", "drawing", "extent", "inline", "p", "prstGeom", "r", "stretch", "xfrm"}, "all", {}),
+  F("t.cellimage.file",    "t", {"blip", "cNvPicPr", "cNvPr", "docPr", "drawing", "extent", "inline", "p", "prstGeom", "r", "stretch", "xfrm"}, "all", {}),
+  F("t.cellimage.same",    "t", {"blip", "cNvPicPr", "cNvPr", "docPr", "drawing", "extent", "inline", "p", "prstGeom", "r", "stretch", "xfrm"}, "all", {}),   \* the same bytes in two pictures
   F("t.nested.d1",         "t", {"p", "r", "t", "tbl", "tc", "tr"}, "all", {}),
   F("t.nested.d2",         "t", {"p", "r", "t", "tbl", "tc", "tr"}, "all", {}),
   F("t.nested.two",        "t", {"p", "r", "t", "tbl", "tc", "tr"}, "all", {}),
@@ -318,16 +320,19 @@ CtorTable == <<
   C("c.math.inline",   "m", {},                          <<"math">>, 1, "ctor.math"),
   C("c.math.block",    "m", {},                          <<"math">>, 1, "ctor.math"),
   C("c.math.text",     "m", {},                          <<"math">>, 1, "ctor.math"),
-  C("c.tbl.1x1",       "t", {"tblcfg"},                  <<"tbl">>, 1, "ctor.table"),
-  C("c.tbl.1x2",       "t", {"tblcfg", "c2"},            <<"tbl">>, 1, "ctor.table"),
-  C("c.tbl.1x3",       "t", {"tblcfg", "c2"},            <<"tbl">>, 1, "ctor.table"),
-  C("c.tbl.2x1",       "t", {"tblcfg", "r2"},            <<"tbl">>, 1, "ctor.table"),
-  C("c.tbl.2x2",       "t", {"tblcfg", "r2", "c2"},      <<"tbl">>, 1, "ctor.table"),
-  C("c.tbl.2x3",       "t", {"tblcfg", "r2", "c2"},      <<"tbl">>, 1, "ctor.table"),
-  C("c.tbl.3x1",       "t", {"tblcfg", "r2"},            <<"tbl">>, 1, "ctor.table"),
-  C("c.tbl.3x2",       "t", {"tblcfg", "r2", "c2"},      <<"tbl">>, 1, "ctor.table"),
-  C("c.tbl.3x3",       "t", {"tblcfg", "r2", "c2"},      <<"tbl">>, 1, "ctor.table"),
+  C("c.tbl.1x1",       "t", {"tblcfg", "tbldata"},                  <<"tbl">>, 1, "ctor.table"),
+  C("c.tbl.1x2",       "t", {"tblcfg", "tbldata", "c2"},            <<"tbl">>, 1, "ctor.table"),
+  C("c.tbl.1x3",       "t", {"tblcfg", "tbldata", "c2"},            <<"tbl">>, 1, "ctor.table"),
+  C("c.tbl.2x1",       "t", {"tblcfg", "tbldata", "r2"},            <<"tbl">>, 1, "ctor.table"),
+  C("c.tbl.2x2",       "t", {"tblcfg", "tbldata", "r2", "c2"},      <<"tbl">>, 1, "ctor.table"),
+  C("c.tbl.2x3",       "t", {"tblcfg", "tbldata", "r2", "c2"},      <<"tbl">>, 1, "ctor.table"),
+  C("c.tbl.3x1",       "t", {"tblcfg", "tbldata", "r2"},            <<"tbl">>, 1, "ctor.table"),
+  C("c.tbl.3x2",       "t", {"tblcfg", "tbldata", "r2", "c2"},      <<"tbl">>, 1, "ctor.table"),
+  C("c.tbl.3x3",       "t", {"tblcfg", "tbldata", "r2", "c2"},      <<"tbl">>, 1, "ctor.table"),
   C("c.tbl.create",    "t", {"r2", "c2"},                <<"tbl">>, 1, "ctor.table"),
+  C("c.ntbl.d1.2x2",   "t", {"tbldata", "r2", "c2"},     <<"tbl">>, 1, "ctor.nestedtable"),
+  C("c.ntbl.d1.1x1",   "t", {"tbldata"},                 <<"tbl">>, 1, "ctor.nestedtable"),
+  C("c.ntbl.d2.2x2",   "t", {"tbldata", "r2", "c2"},     <<"tbl">>, 1, "ctor.nestedtable"),
   C("c.img.png",       "i", {},                          <<"p">>, 1, "ctor.image"),
   C("c.img.jpeg",      "i", {},                          <<"p">>, 1, "ctor.image"),
   C("c.img.gif",       "i", {},                          <<"p">>, 1, "ctor.image"),
@@ -359,12 +364,37 @@ EmptyProj == [els |-> <<>>, sect |-> NoEnts, hs |-> 0]
 \* ---- the model of Build: which groups each call leaves behind -------------
 \* (model level: one entry per group; DeepFeats also leave an entry below a nested node)
 DeepFeats == {"t.nested.d1", "t.nested.d2", "t.nested.two"}
-ElGroups(e) == UNION {FT[f].gs : f \in {x \in SeqSet(e.fs) \cap FeatIds : FT[x].exp = "all"}}
-ModelEnts(gs, deep) ==
-  [k \in {"#"} \cup gs \cup (IF deep THEN {"tbl/in"} ELSE {}) |->
-     IF k = "#" THEN [v |-> "", g |-> "#", up |-> ""]
-     ELSE IF k = "tbl/in" THEN [v |-> "1", g |-> "tblW", up |-> "tbl"]
-     ELSE [v |-> "1", g |-> k, up |-> ""]]
+\* constructors whose target - the element the features act on - lies below a nested table
+\* node of the body element: everything the features leave is governed by that node
+DeepCtors == {"c.nestedcellpara", "c.ntbl.d1.2x2", "c.ntbl.d1.1x1", "c.ntbl.d2.2x2"}
+\* groups of which one element holds several instances, one per SLOT (the references of a
+\* section to its header / footer parts: one per kind default / first / even); a later call
+\* for the same slot replaces the instance of the earlier one
+MultiGroups == {"headerReference", "footerReference"}
+Slot(f) == CASE f \in {"s.header.first", "s.footer.first"} -> "first"
+             [] f \in {"s.header.even", "s.footer.even", "s.ffooter"} -> "even"
+             [] OTHER -> "default"
+
+ExpFeats(S) == {x \in S \cap FeatIds : FT[x].exp = "all"}
+GroupsOf(S) == UNION {FT[f].gs : f \in ExpFeats(S)}
+ElGroups(e) == GroupsOf(SeqSet(e.fs))
+NoFun == [x \in {} |-> x]
+SingleEnts(S, up) == [k \in GroupsOf(S) \ MultiGroups |-> [v |-> "1", g |-> k, up |-> up]]
+\* one entry per (multi group, slot); its value names the last call (canonical order) for the slot
+MultiEnts(S, up) ==
+  LET P == {p \in ExpFeats(S) \X MultiGroups : p[2] \in FT[p[1]].gs}
+      key(p) == p[2] \o "/" \o Slot(p[1])
+  IN [k \in {key(p) : p \in P} |->
+        LET Q == {p \in P : key(p) = k}
+            last == CHOOSE p \in Q : \A q \in Q : FIdx[q[1]] <= FIdx[p[1]]
+        IN [v |-> last[1], g |-> last[2], up |-> up]]
+\* S = set of feature tokens applied, deepC = the target lies below a nested table node
+ModelEnts(S, deepC) ==
+  LET up == IF deepC THEN "ntbl" ELSE ""
+  IN ("#" :> [v |-> "", g |-> "#", up |-> ""])
+     @@ (IF deepC THEN "ntbl" :> [v |-> "tbl", g |-> "tbl", up |-> ""] ELSE NoFun)
+     @@ SingleEnts(S, up) @@ MultiEnts(S, up)
+     @@ (IF S \cap DeepFeats # {} THEN "tbl/in" :> [v |-> "1", g |-> "tblW", up |-> "tbl"] ELSE NoFun)
 
 RECURSIVE ModelEls(_, _)
 ModelEls(els, i) ==
@@ -372,26 +402,36 @@ ModelEls(els, i) ==
   ELSE LET e == els[i]
            c == CT[e.c]
            one(j) == [k |-> c.kinds[j], sig |-> c.kinds[j] \o ":" \o ToString(i) \o "." \o ToString(j), src |-> i,
-                      ents |-> IF j = c.main THEN ModelEnts(ElGroups(e), SeqSet(e.fs) \cap DeepFeats # {}) ELSE NoEnts]
+                      ents |-> IF j = c.main THEN ModelEnts(SeqSet(e.fs), e.c \in DeepCtors) ELSE NoEnts]
        IN [j \in 1..Len(c.kinds) |-> one(j)] \o ModelEls(els, i + 1)
 
 SectTouching(b) == b.sect # <<>>
 Model(b) ==
   [els  |-> ModelEls(b.els, 1),
-   sect |-> ModelEnts(UNION {FT[f].gs : f \in {x \in SeqSet(b.sect) \cap FeatIds : FT[x].exp = "all"}}, FALSE),
+   sect |-> ModelEnts(SeqSet(b.sect), FALSE),
    hs   |-> IF SectTouching(b) THEN 1 ELSE 0]
 
-\* the serialiser and the intended reader are the identity on the abstract document;
-\* a lossy reader (no `case` for the groups in Lost, the body-level kinds in LostKinds) is the general form
+\* the serialiser and the intended reader are the identity on the abstract document. Two general
+\* forms of a defective reader: a LOSSY one (no `case` for the groups in Lost, the body-level kinds
+\* in LostKinds) and an ALIASING one (every instance of a multi group in Alias comes back as a copy
+\* of the last instance read - instances collected by reference to one shared variable)
 Ser(m) == m
 KeepEnts(E, Lost) ==
   LET kept == {k \in DOMAIN E : E[k].g \notin Lost}
       keep2 == {k \in kept : E[k].up = "" \/ E[k].up \in kept}
   IN [k \in keep2 |-> E[k]]
-Parse(d, Lost, LostKinds) ==
+AliasEnts(E, Alias) ==
+  [k \in DOMAIN E |->
+     IF E[k].g \in Alias /\ E[k].v \in FeatIds
+     THEN LET Q == {q \in DOMAIN E : E[q].g = E[k].g /\ E[q].v \in FeatIds}
+              last == CHOOSE q \in Q : \A r \in Q : FIdx[E[r].v] <= FIdx[E[q].v]
+          IN [E[k] EXCEPT !.v = E[last].v]
+     ELSE E[k]]
+ReadEnts(E, Lost, Alias) == AliasEnts(KeepEnts(E, Lost), Alias)
+Parse(d, Lost, LostKinds, Alias) ==
   LET ks == SelectSeq(d.els, LAMBDA e : e.k \notin LostKinds)
-  IN [els  |-> [i \in 1..Len(ks) |-> [ks[i] EXCEPT !.ents = KeepEnts(ks[i].ents, Lost), !.src = 0]],
-      sect |-> KeepEnts(d.sect, Lost), hs |-> d.hs]
+  IN [els  |-> [i \in 1..Len(ks) |-> [ks[i] EXCEPT !.ents = ReadEnts(ks[i].ents, Lost, Alias), !.src = 0]],
+      sect |-> ReadEnts(d.sect, Lost, Alias), hs |-> d.hs]
 
 \* ---- alignment of body elements of two projections ------------------------
 \* Order-preserving pairing of the elements of A (reference) with those of B, one pass:
